@@ -58,7 +58,10 @@ theorem C18_bound_step (d : Nat) (hd : 1 ≤ d) (s : St) (hq : s.qos.depth = som
     have := fun h' => readTakeNextInstance_cnt_le (isAliveOf h') (readBlind_isAliveOf h') s max prev m take
     exact ⟨fun h' => Nat.le_trans (this h').1 (hinv h'), (this 0).2⟩
   | pub w st => exact ⟨hinv, rfl⟩
-  | unpub w => exact ⟨hinv, rfl⟩
+  | unpub w =>
+    have e : applyOp s (Op.unpub w) = removePub s w := rfl
+    rw [e]
+    rcases removePub_cases s w with h | ⟨p, o, h⟩ <;> rw [h] <;> exact ⟨hinv, rfl⟩
   | rejStatus => exact ⟨hinv, rfl⟩
 
 /-- C18 (bound): after ANY operation list a KEEP_LAST(d) reader holds at most d data samples per instance -/
